@@ -1,3 +1,4 @@
 """property id -> (harness module, entry function)"""
 CHECKS = {
 }
+CHECKS.update({"C06": ("containers", "run_c06"), "C17": ("containers", "run_c17"), "C20": ("containers", "run_c20")})
